@@ -193,8 +193,8 @@ theorem zero_interval_fire (s : State) (i : Nat) (τ : Timer) (hi : s.timers[i]?
   simp [this, getElem?_lt hi]
 
 theorem prompt_of_binv {s : State} (h : BInv s) (τ : Timer) (hτ : τ ∈ s.timers) : timerPromptOk s τ = true := by
-  have := h.okPrompt
-  unfold Timers.okPrompt at this
+  have := h.okPrompt1
+  unfold Timers.okPrompt1 at this
   rw [List.all_eq_true] at this
   exact this τ hτ
 
